@@ -743,6 +743,11 @@ class CallMixin:
                 st.env.pop(f"arg{i}", None)
             for i in range(n_res):
                 st.env.pop(f"result{i}", None)
+            st.env.pop("callresult", None)
+            if "$result" in ste.env:
+                st.env["$result"] = ste.env["$result"]
+            else:
+                st.env.pop("$result", None)
         return res
 
     def ghost_assign(self, stmt, st):
